@@ -9,6 +9,7 @@ import (
 	"fmt"
 	"os"
 	"path/filepath"
+	"strings"
 
 	"vh/env"
 	"vh/proto"
@@ -31,6 +32,12 @@ type Opts struct {
 	RelayT       []string `json:"relay_templates"`
 	PendingBlock []string `json:"pending_blocks"`
 	MaxRelay     int      `json:"max_relay"`
+	// Import adds the C07 alphabet: import of the external wallet C (API call), single
+	// rescan batches, and blocks paying/spending C's addresses.
+	Import  bool     `json:"import"`
+	CBlocks []string `json:"c_blocks"`
+	// Remove adds the C08 alphabet: removal of wallet B (API call) and its background run.
+	Remove bool `json:"remove"`
 	// Games adds the C10 oracle (staking/binding histories, withdrawal sequences).
 	Games bool `json:"games"`
 }
@@ -58,6 +65,9 @@ func New(o Opts) *Model {
 	if o.MaxHeight == 0 {
 		o.MaxHeight = 8
 	}
+	if o.Import && len(o.CBlocks) == 0 {
+		o.CBlocks = []string{"pc0", "pc1", "pc2", "sc"}
+	}
 	if o.Relay {
 		if len(o.RelayT) == 0 {
 			o.RelayT = world.RelayTemplates
@@ -77,6 +87,18 @@ func (m *Model) Alphabet() []string {
 	a := []string{"d"}
 	for _, t := range m.O.Templates {
 		a = append(a, "x."+t)
+	}
+	if m.O.Import {
+		a = append(a, "i.m0", "i.m1", "i.s")
+		for _, t := range m.O.CBlocks {
+			a = append(a, "x."+t)
+		}
+	}
+	if m.O.Remove {
+		a = append(a, "k.rm", "k.run", "k.im")
+	}
+	if m.O.Import || m.O.Remove {
+		a = append(a, "z")
 	}
 	if m.O.Relay {
 		for _, t := range m.O.RelayT {
@@ -118,8 +140,40 @@ func (m *Model) Enabled(w *world.World) []string {
 			if q > 0 {
 				s = append(s, ev)
 			}
+		case 'i':
+			st := w.TaskStatus("C")
+			switch ev {
+			case "i.m0", "i.m1":
+				if st == "" {
+					s = append(s, ev)
+				}
+			case "i.s":
+				if strings.HasPrefix(st, "importing") {
+					s = append(s, ev)
+				}
+			}
+		case 'k':
+			st := w.TaskStatus("B")
+			switch ev {
+			case "k.rm":
+				if st == "ready" {
+					s = append(s, ev)
+				}
+			case "k.run":
+				if st == "removing" {
+					s = append(s, ev)
+				}
+			case "k.im":
+				if st == "absent" && !w.BReimported {
+					s = append(s, ev)
+				}
+			}
+		case 'z':
+			if q == 0 && m.restarts(w) < 1 {
+				s = append(s, ev)
+			}
 		case 'y':
-			if q == 0 && len(w.Relayed) < m.O.MaxRelay {
+			if q == 0 && w.RelayCount() < m.O.MaxRelay {
 				if _, ok := w.RelayContent(ev[2:], w.Ledger()); ok {
 					s = append(s, ev)
 				}
@@ -129,6 +183,8 @@ func (m *Model) Enabled(w *world.World) []string {
 				if _, ok := w.Content(ev[2:], w.Ledger()); ok {
 					s = append(s, ev)
 				} else if _, ok := w.PendingBlockContent(ev[2:], w.Ledger()); ok {
+					s = append(s, ev)
+				} else if _, ok := w.CContent(ev[2:], w.Ledger()); ok {
 					s = append(s, ev)
 				}
 			}
@@ -182,7 +238,25 @@ func (m *Model) Run(hist []string) *proto.Result {
 			return r
 		}
 	}
+	var pre []string
+	if m.O.Import || m.O.Remove {
+		pre = w.CheckTaskStates()
+		if err := w.CompleteTasks(); err != nil {
+			r.Err = "completing background tasks: " + err.Error()
+			return r
+		}
+		for len(w.N.Queue) > 0 {
+			if err := w.Deliver(); err != nil {
+				r.Err = "drain: " + err.Error()
+				return r
+			}
+		}
+	}
 	diffs, obs := w.CheckLedger()
+	diffs = append(diffs, pre...)
+	if m.O.Remove {
+		diffs = append(diffs, w.CheckRemoved()...)
+	}
 	if m.O.Relay {
 		pd := w.CheckPending()
 		other := len(diffs)
@@ -226,3 +300,5 @@ func (m *Model) Run(hist []string) *proto.Result {
 	r.Info["handler_errors"] = len(w.HandlerErrs)
 	return r
 }
+
+func (m *Model) restarts(w *world.World) int { return w.Restarts }
